@@ -212,6 +212,11 @@ def apply_contract_env(ex, info, env, st, node):
                 bound.extend(flatten(ex, g, S.sort_of(g)))
             e = z3.ForAll(bound, e)
         st.assume(z3.Implies(z3.And(*guards), e) if guards else e)
+    aens = info.clause("assumed_ensures")
+    if aens is not None:
+        # a clause of the callee's contract that its own proof does NOT establish (listed under `trusted`): assumed at call sites only
+        e = eval_clause(ex, info, aens, cs, dict(old, result=res))
+        st.assume(z3.Implies(z3.And(*guards), e) if guards else e)
     gl = getattr(info.cls, "ghost_log", None)
     if gl:
         ex.ctx.ghost_log.append((gl, where))
